@@ -200,6 +200,7 @@ pub fn spawn_broker<R: Responder>(wire: Wire, cfg: ServerCfg, r: R) -> BrokerHan
                 closing_channels: Default::default(),
             };
             let mut dec = StreamDecoder::new();
+            let mut fed_len = 0usize;
             // 0 = waiting header, 1 = sent Start, 2 = sent Tune, 3 = waiting Open, 4 = steady
             let mut phase = 0;
             loop {
@@ -220,7 +221,10 @@ pub fn spawn_broker<R: Responder>(wire: Wire, cfg: ServerCfg, r: R) -> BrokerHan
                 let pos0 = dec.pos();
                 let out = {
                     let st = wire.lock();
-                    if st.out.len() > pos0 && (pos0 > 0 || st.out.len() >= 8) {
+                    // feed only when bytes have arrived since the last look (an incomplete trailing
+                    // frame or an undecodable stream must not make this loop spin)
+                    if st.out.len() > fed_len && (pos0 > 0 || st.out.len() >= 8) && dec.error.is_none() {
+                        fed_len = st.out.len();
                         Some(st.out[pos0..].to_vec())
                     } else {
                         None
@@ -315,8 +319,12 @@ pub fn spawn_broker<R: Responder>(wire: Wire, cfg: ServerCfg, r: R) -> BrokerHan
                 let pos = dec.pos();
                 let ctl3 = ctl2.clone();
                 let woh = r.wake_on_hold();
+                let decodable = dec.error.is_none();
+                let fl = fed_len;
                 wire.wait_until(Duration::from_millis(2), |st| {
-                    (st.out.len() > pos && (pos > 0 || st.out.len() >= 8)) || (woh && st.held) || {
+                    (decodable && st.out.len() > fl && (fl > 0 || st.out.len() >= 8))
+                        || (woh && st.held)
+                        || {
                         let g = ctl3.lock().unwrap();
                         g.stop || !g.cmds.is_empty()
                     }
